@@ -84,7 +84,8 @@ def hosvd(  # noqa: PLR0912,PLR0913,PLR0915
     if verbosity > 0:
         print("Computing HOSVD...\n")
 
-    normxsqr = (input_tensor**2).collapse()
+    # In floating point: squares of data held in a small integer dtype wrap around
+    normxsqr = float(np.sum(input_tensor.double() ** 2))
     eigsumthresh = ((tol**2) * normxsqr) / d
 
     if verbosity > 2:
